@@ -327,10 +327,11 @@ def generic_store_check(rep, tier, seed, prop, allow, extras_fn, want, nhist, co
             mutate_hist(rng, h)
         if rng.random() < 0.12 and h.ops:
             # the wall clock is stepped while the store is in use (an NTP correction, a VM resumed, an operator): back by a
-            # second, an hour, a day; forward; back to the true time. Nothing the store answers may depend on it.
+            # second, an hour, a day; forward; back to the true time; or it stands still for a while (a coarse clock: every entry
+            # written meanwhile carries the same timestamp). Nothing the store answers may depend on it.
             ops = list(h.ops)
             for _ in range(rng.randint(1, 3)):
-                ops.insert(rng.randint(0, len(ops)), ("clock", rng.choice([-1000, -3600000, -86400000, 3600000, 0, -5])))
+                ops.insert(rng.randint(0, len(ops)), ("clock", rng.choice([-1000, -3600000, -86400000, 3600000, 0, -5, "freeze", "freeze", "thaw"])))
             h.ops = ops
             rep.count("histories_with_clock_steps")
         hists.append((h, meta))
@@ -342,7 +343,7 @@ def generic_store_check(rep, tier, seed, prop, allow, extras_fn, want, nhist, co
         spans.append((len(all_lines), len(lines), h, meta, tags))
         all_lines += lines
     root = os.path.join(WORK, "run-" + prop)
-    impl, model, died = run_both(all_lines + ["clock 0"], root, preload=True)
+    impl, model, died = run_both(all_lines + ["clock thaw", "clock 0"], root, preload=True)
     impl, model = impl[:len(all_lines)], model[:len(all_lines)]
     rep.cov["evaluations"] += len(all_lines)
     rep.cov["traces_validated_against_impl"] += len(hists)
@@ -376,7 +377,7 @@ def generic_store_check(rep, tier, seed, prop, allow, extras_fn, want, nhist, co
     def rerun(h, meta, ops):
         h2 = Hist(h.name, h.cfg, ops)
         lines, tags = script_for(h2, meta, extras_fn(meta))
-        i2, m2, d2 = run_both(lines + ["clock 0"], root + "-shrink", preload=True)
+        i2, m2, d2 = run_both(lines + ["clock thaw", "clock 0"], root + "-shrink", preload=True)
         i2, m2 = i2[:len(lines)], m2[:len(lines)]
         return h2, lines, tags, i2, m2, problems(h2, meta, lines, tags, i2, m2, d2)
 
